@@ -523,6 +523,13 @@ impl<'a> Gen<'a> {
                         G::Has(bx(m), self.rng.pick(FIELD_POOL).to_string())
                     }
                     13 if self.rng.chance(1, 4) => {
+                        // regular expressions of the fragment the specification pins
+                        let a = self.expr(&T::Str, d);
+                        let pat: &str = *self.rng.pick(&["a", "^a", "b$", "^ab?c?$", "a|k", "[a-k]1", "^$", ".", "^.$", "(ab)+", "a b", "[^a]", "é", "^(a|b)*$", "x*", "1|true"]);
+                        let b = G::Atom(str_lit(pat));
+                        if self.rng.chance(1, 2) { G::Method(bx(a), "matches".into(), vec![b]) } else { G::Call("matches".into(), vec![a, b]) }
+                    }
+                    13 if self.rng.chance(1, 3) => {
                         // bytes.contains(bytes)
                         let a = self.expr(&T::Bytes, d);
                         let b = self.expr(&T::Bytes, d);
